@@ -289,3 +289,28 @@ func OpCycle(o *Out, e *TypeEntry, d0 reflect.Value, srcs []reflect.Value, bufCl
 	}
 	o.Op(head + " | " + bufClass + " | " + strings.Join(steps, " | "))
 }
+
+// OpCopyTo2 emits one `CT` record for built-in inspectors: source and destination may be of different types.
+func OpCopyTo2(o *Out, es, ed *TypeEntry, src, d reflect.Value, fs, fd Form, bufClass string) {
+	stok, dtok := Ser(src), Ser(d)
+	sarg, sroot := MakeArg(es.Type, DeepCopy(src), fs)
+	darg, droot := MakeArg(ed.Type, DeepCopy(d), fd)
+	var out string
+	func() {
+		defer func() {
+			if r := recover(); r != nil {
+				out = "panic"
+			}
+		}()
+		if err := es.Ins.CopyTo(sarg, darg, bufFor(bufClass, byteNeed(src))); err != nil {
+			out = errTok(err)
+			return
+		}
+		shared := SharedCount(sroot(), droot())
+		same := b01(Ser(sroot()) == stok)
+		out = "ok " + strconv.Itoa(shared) + " - " + same + " " + Ser(droot())
+	}()
+	vs := o.DeclareVal(es, stok)
+	vd := o.DeclareVal(ed, dtok)
+	o.Op("CT " + es.Tid + " " + string(fs) + " " + string(fd) + " " + vs + " " + vd + " | " + ed.Builtin + " | " + out)
+}
